@@ -8,6 +8,9 @@ import (
 // VerifyMerkleBranch verifies that the given leaf is
 // on the merkle branch at the given depth, at the index at that depth.
 func VerifyMerkleBranch(leaf tree.Root, branch []tree.Root, depth uint64, index uint64, root tree.Root) bool {
+	if uint64(len(branch)) < depth {
+		return false
+	}
 	value := leaf
 	for i := uint64(0); i < depth; i++ {
 		if (index>>i)&1 == 1 {
